@@ -22,13 +22,19 @@ pub enum C {
     Rec { attrs: Vec<(String, C)>, items: Vec<C>, slots: Vec<(C, C)> },
 }
 
+pub type PathPred<'a> = &'a dyn Fn(&str) -> bool;
+
+fn never(_: &str) -> bool {
+    false
+}
+
 pub fn canon(v: &Value) -> C {
-    canon_at(v, "", &[], &[])
+    canon_at(v, "", &never, &never)
 }
 
 /// As `canon`, but at the given `map_paths` (same path syntax as `first_difference`) several
 /// slots with the same key collapse to the last one (the reading of a map).
-pub fn canon_with(v: &Value, map_paths: &[&str], opaque: &[&str]) -> C {
+pub fn canon_with(v: &Value, map_paths: PathPred<'_>, opaque: PathPred<'_>) -> C {
     canon_at(v, "", map_paths, opaque)
 }
 
@@ -52,8 +58,8 @@ fn key_name(k: &C) -> String {
     }
 }
 
-fn canon_at(v: &Value, path: &str, map_paths: &[&str], opaque: &[&str]) -> C {
-    if opaque.contains(&path) {
+fn canon_at(v: &Value, path: &str, map_paths: PathPred<'_>, opaque: PathPred<'_>) -> C {
+    if opaque(path) {
         return C::Nil;
     }
     match v {
@@ -92,9 +98,9 @@ fn canon_at(v: &Value, path: &str, map_paths: &[&str], opaque: &[&str]) -> C {
                         citems.push(canon_at(v, &p, map_paths, opaque))
                     }
                     Item::Slot(k, v) => {
-                        let ck = canon_at(k, "?", &[], &[]);
+                        let ck = canon_at(k, "?", &never, &never);
                         let cv = canon_at(v, &format!("{}{}:/", path, key_name(&ck)), map_paths, opaque);
-                        if map_paths.contains(&path) {
+                        if map_paths(path) {
                             cslots.retain(|(k0, _)| *k0 != ck);
                         }
                         if cv != C::Nil {
